@@ -64,6 +64,7 @@ access(all) contract T {
   access(all) fun mkR2(id: Int): @R2 { return <- create R2(id: id) }
   access(all) fun join(_ xs: [String]): String { var s = ""; for x in xs { s = s.concat(x).concat(",") }; return s }
   access(all) fun desc(_ v: AnyStruct): String {
+    if v.getType().identifier == "(Int)?" { return "OptInt:".concat(((v as! Int?)!).toString()) }
     if let s = v as? S { return "S:".concat(s.id.toString()) }
     if let s = v as? S2 { return "S2:".concat(s.id.toString()) }
     if let s = v as? Int { return "Int:".concat(s.toString()) }
@@ -104,6 +105,8 @@ func valExpr(v *Val) string {
 		return fmt.Sprintf("T.%s(id: %d)", v.Ty, v.ID)
 	case "Int":
 		return fmt.Sprint(v.ID)
+	case "OptInt":
+		return fmt.Sprintf("(%d as Int?)", v.ID)
 	case "R":
 		return fmt.Sprintf("<- T.mkR(id: %d)", v.ID)
 	case "R2":
@@ -120,6 +123,8 @@ func descViaBorrow(a, path string, v *Val) string {
 		return fmt.Sprintf("\"%s:\".concat(%s.storage.borrow<&T.%s>(from: %s)!.id.toString())", v.Ty, a, v.Ty, path)
 	case "Int":
 		return fmt.Sprintf("\"Int:\".concat((*%s.storage.borrow<&Int>(from: %s)!).toString())", a, path)
+	case "OptInt":
+		return fmt.Sprintf("T.desc(%s.storage.copy<AnyStruct>(from: %s)!)", a, path)
 	}
 	return "\"?\""
 }
@@ -181,6 +186,8 @@ func tyID(t string) string {
 		return "none"
 	case "Int":
 		return "Int"
+	case "OptInt":
+		return "(Int)?"
 	}
 	return "A.0000000000000001.T." + t
 }
